@@ -19,11 +19,10 @@ B. SQL level (implementation vs implementation): every spelling {lower, UPPER, M
 import itertools
 import json
 import os
-import sys
 import time
 import warnings
 
-from common import Check, Driver, Infra, REPO, canon_json, leanchecker, log
+from common import Driver, Infra, REPO, canon_json, leanchecker, log
 
 NEED_DRIVER = True
 
@@ -277,7 +276,7 @@ def part_a1(chk, drv, impl):
 
 
 # ------------------------------------------------------------------------------------------------ part A2
-def part_pool(tier):
+def part_pool():
     two = [s for s in all_strings(2)]
     extra = ['"Ab"', "`Ab`", "[Ab]", "Ab", "AB", '"ab"', '"a.b"', '"A.b"', "[a b]", '""', "'Ab'", '"a"b"', "[A]]", '"[Ab]"',
              "`a``", "a b"]
@@ -285,7 +284,7 @@ def part_pool(tier):
 
 
 def part_a2(chk, drv, impl):
-    pool = part_pool(chk.tier)
+    pool = part_pool()
     small = ['a', 'B', 'aB', '"B"', '"aB"', '`aB`', '[aB]', '"a.B"', '""', '"', '.', '[B', "'B'", '"[B]"']
     if chk.tier == "thorough":
         small += ['B]', '`', "a'", ' B', '"a B"', "[a.B]"]
@@ -926,6 +925,7 @@ def run(chk):
             chk.lean.bad_axioms.append(("leanchecker", [out[-300:]]))
     chk.coverage.update({
         "exhaustive": not chk.violations,
+        "repo_under_test": REPO,
         "exhaustive_scope": "A1-A3 enumerate their finite spaces completely; A4 is all pairs of a seeded pool; B enumerates "
                             "every uniform spelling x template x dialect (thorough: plus all per-part spellings for 2 parts "
                             "and a seeded sample for 3 parts)",
